@@ -100,3 +100,15 @@ Theorem C09_divvy_spec_sound reporter rate reward origins total credits :
   Z.abs (sumz (map snd credits) - reward) <= Z.of_nat (List.length origins).
 Proof. exact (divvy_spec_sound reporter rate reward origins total credits). Qed.
 Print Assumptions C09_divvy_spec_sound.
+
+(* eligibility, on the real end-blocker pass (EligCase): when the check is silent, the calls are exactly the tips of the
+   tipped rounds followed by one payout of the whole pool to the eligible rounds' reporters, and every recipient of a
+   time-based-rewards payment reported in a cycle-list / bridge-deposit round of that block *)
+Theorem C09_check_sound_eligibility rounds R impl :
+  c09_check (EligCase rounds R impl) = [] ->
+  list_eqb call_eqb (elig_expected rounds R) impl = true /\
+  (forall c, In c impl -> fst (fst c) = 2 ->
+     snd (fst c) = R /\
+     forall id a q h, In (id, a, q, h) (snd c) -> In id (reporters_of_rounds (filter (fun r => fst (fst r)) rounds))).
+Proof. exact (elig_check_sound rounds R impl). Qed.
+Print Assumptions C09_check_sound_eligibility.
